@@ -255,11 +255,41 @@ class Walker:
             self.sites[(r, b, e)] = rec
 
 
+_SRC_HASH = []
+
+
+def source_hash():
+    """content hash of every source file under <repo>/dispenso (third-party included)"""
+    if not _SRC_HASH:
+        h = hashlib.sha1()
+        for root, dirs, files in os.walk(os.path.join(REPO, 'dispenso')):
+            dirs.sort()
+            for f in sorted(files):
+                if f.endswith(('.h', '.cpp', '.hpp', '.inl')):
+                    q = os.path.join(root, f)
+                    h.update(q.encode())
+                    h.update(open(q, 'rb').read())
+        _SRC_HASH.append(h.hexdigest())
+    return _SRC_HASH[0]
+
+
+def cache_path(name):
+    hh = hashlib.sha1((source_hash() + TUS[name] + open(os.path.abspath(__file__)).read() + REPO).encode()).hexdigest()[:16]
+    return os.path.join(WORK, 'cache_%s_%s.json' % (name, hh))
+
+
 def run_tu(name):
     """-> (sites dict, refs dict, regex counts, error or None) for one translation unit.
-    The result is a pure function of the PREPROCESSED text of the TU (all included headers, after #if) and of this script:
-    it is cached under that hash, so an unchanged source costs one `clang -E` per TU."""
+    The result is a pure function of the source files under <repo>/dispenso, of the TU text and of this script: it is cached
+    under the hash of all three, so a run on an unchanged source tree costs reading the files once."""
     os.makedirs(WORK, exist_ok=True)
+    cache = cache_path(name)
+    if os.path.exists(cache):
+        try:
+            c = json.load(open(cache))
+            return c['sites'], c['refs'], c['rc'], None
+        except Exception:
+            pass
     src = os.path.join(WORK, 'tu_%s_%d.cpp' % (name, os.getpid()))
     with open(src, 'w') as f:
         f.write(TUS[name])
@@ -267,15 +297,6 @@ def run_tu(name):
         e = subprocess.run([CLANG] + FLAGS + ['-E', src], stdout=subprocess.PIPE, stderr=subprocess.PIPE, universal_newlines=True, timeout=120)
         if e.returncode != 0:
             return {}, {}, {}, 'clang -E failed on TU %s: %s' % (name, e.stderr[-1500:])
-        pre = e.stdout.replace(src, '<tu>')
-        hh = hashlib.sha1((pre + open(os.path.abspath(__file__)).read() + REPO).encode()).hexdigest()[:16]
-        cache = os.path.join(WORK, 'cache_%s_%s.json' % (name, hh))
-        if os.path.exists(cache):
-            try:
-                c = json.load(open(cache))
-                return c['sites'], c['refs'], c['rc'], None
-            except Exception:
-                pass
         r = subprocess.run([CLANG] + FLAGS + ['-fsyntax-only', '-Xclang', '-ast-dump=json', '-Xclang', '-ast-dump-filter=dispenso', src],
                            stdout=subprocess.PIPE, stderr=subprocess.PIPE, universal_newlines=True, timeout=300)
         if r.returncode != 0:
@@ -285,8 +306,9 @@ def run_tu(name):
             annotate_locs(doc, [None, None])
             w.walk(doc, None, None, False)
         res = ({'%s|%d|%d' % k: v for k, v in w.sites.items()}, {'%s|%d' % k: v for k, v in w.refs.items()}, regex_count(e.stdout))
-        for oldc in [x for x in os.listdir(WORK) if x.startswith('cache_%s_' % name)]:
-            os.unlink(os.path.join(WORK, oldc))
+        olds = sorted((os.path.join(WORK, x) for x in os.listdir(WORK) if x.startswith('cache_%s_' % name) and x.endswith('.json')), key=os.path.getmtime)
+        for oldc in olds[:-3]:      # keep a few: mutation runs (VERIF_REPO) alternate with runs on the real tree
+            os.unlink(oldc)
         tmp = cache + '.tmp%d' % os.getpid()
         json.dump({'sites': res[0], 'refs': res[1], 'rc': res[2]}, open(tmp, 'w'))
         os.replace(tmp, cache)
@@ -324,8 +346,14 @@ def extract():
     """-> (sites list sorted, report dict)"""
     sites, refs, errors = {}, {}, []
     rtoks, rcalls = {}, {}
-    with ProcessPoolExecutor(max_workers=len(TUS)) as ex:
-        for name, (s, r, rc, err) in zip(TUS, ex.map(run_tu, list(TUS))):
+    names = list(TUS)
+    if all(os.path.exists(cache_path(n)) for n in names):
+        outs = [run_tu(n) for n in names]                 # all cached: no clang, no worker processes
+    else:
+        with ProcessPoolExecutor(max_workers=len(TUS)) as ex:
+            outs = list(ex.map(run_tu, names))
+    if True:
+        for name, (s, r, rc, err) in zip(names, outs):
             if err:
                 errors.append(err)
                 continue
